@@ -71,6 +71,10 @@ claimed = {
          "Seeded histories over three connections and the users default/u1/u2: ACL SETUSER with on/off, >p <p #h !h nopass resetpass, ACL DELUSER (including default and absent users), AUTH with one and two arguments and HELLO ... AUTH with right, wrong, hash-form and other users' passwords, reconnects, ACL SAVE, ACL LOAD MERGE|REPLACE, restart on the saved .json/.yaml/.yml file, with and without RequirePass; after every step every connection is probed (ACL WHOAMI and a GET): it must act as exactly the user the reference says, or be refused.",
          "Probe users have maximally permissive rules so that a probe fails exactly when the connection is unauthenticated or its user is disabled or deleted. Rule equality after SAVE/LOAD/restart is behavioural (same AUTH and probe outcomes).",
          "DESIGN.md §3 C11"),
+ "C12": ("exploration", "black-box protocol fuzzing of a real listener with a strict independent RESP2/RESP3 parser and a sentinel (ECHO id) discipline that matches reply i to command i; liveness probe on a second connection after every stream",
+         "For every registered command and subcommand: argument vectors of arity 0..6 drawn from hostile bytes (empty, huge/negative integers, CR LF, NUL, RESP type bytes, option keywords, 9 KB, 70 KB), each followed by a unique ECHO sentinel: exactly one well-formed reply before the sentinel (one per channel for the subscribe family). Pipelines of 2-26 commands written in 1, 2 or 3 TCP segments cut at random offsets, in RESP2 and after HELLO 3, with payloads (CR LF NUL, RESP-looking bytes, 9 KB, 70 KB, empty) stored and read back inside the same stream and compared byte for byte; truncated, corrupted, inline, nested, non-array, oversized-length and exactly-8192-byte frames after which a new connection must still get PONG; 32 connections pipelining at once; typed embedded API results compared with the decoded wire reply of the same command.",
+         "Well-formedness is decided by the harness's own strict parser. After a malformed frame the server may close that connection. Payloads that the numeric value typing rewrites (listed finding C01-KF1) are not used for the byte-for-byte comparison.",
+         "DESIGN.md §3 C12"),
  "C01": ("exploration", "lock-step differential monitoring of the real handlers against an executable reference typed map (replies + whole-store dump after every step)",
          "Every sequence of depth <=2 (thorough: <=3) over an 80-command alphabet from 8 initial states, plus seeded random programs of 40-80 steps over binary/numeric/huge values, run on fresh instances; each step's strict-parsed reply must be allowed by the reference model and the side-effect-free dump of the store must equal the model state. Held on what was explored, not a proof.",
          "Trusts the verif-tagged dump (reads the store under its own lock), the injected virtual clock, and the reference model in harness/model (set-valued where statement and docs are silent). Inputs matching a listed known finding are filtered out of exploration and replayed by a witness lane.",
